@@ -704,6 +704,52 @@ def multi_section_case(ctx, procs):
                           f'{len(got - expected)} extra, e.g. {sorted(expected ^ got)[:2]}', inp)
 
 
+def shared_statements_case(ctx, procs):
+    """CLI runs over a mapping whose rules, inside ONE mapping group, generate identical statements (two triples maps with the same
+    subject template and class over sources with overlapping rows; several rules per group under every partitioning mode because
+    subjects, predicates and objects share their invariants).  The expected lines are computed from the data; every process count
+    - in particular more processes than groups - must write each statement exactly once."""
+    root = os.path.join(ctx.tmp, 'shared')
+    os.makedirs(root, exist_ok=True)
+    rng = random.Random(ctx.seed * 17 + 3)
+    ids_a = [f'p{i}' for i in range(rng.randrange(4, 9))]
+    ids_b = ids_a[len(ids_a) // 2:] + [f'q{i}' for i in range(rng.randrange(2, 5))]
+    for name, ids in (('a.csv', ids_a), ('b.csv', ids_b)):
+        with open(os.path.join(root, name), 'w') as f:
+            f.write('id,team\n' + ''.join(f'{i},t{int(i[1:]) % 2}\n' for i in ids))
+    mp = os.path.join(root, 'm.ttl')
+    with open(mp, 'w') as f:
+        f.write('@prefix rr: <http://www.w3.org/ns/r2rml#> .\n@prefix rml: <http://semweb.mmlab.be/ns/rml#> .\n@prefix ql: <http://semweb.mmlab.be/ns/ql#> .\n'
+                + ''.join(f'''<http://ex.org/TM{k}> rml:logicalSource [ rml:source "{os.path.join(root, src)}"; rml:referenceFormulation ql:CSV ];
+  rr:subjectMap [ rr:template "http://ex.org/person/{{id}}"; rr:class <http://ex.org/Person> ];
+  rr:predicateObjectMap [ rr:predicate <http://ex.org/team>; rr:objectMap [ rr:template "http://ex.org/team/{{team}}" ] ] .
+''' for k, src in enumerate(['a.csv', 'b.csv'])))
+    expected = set()
+    for i in set(ids_a) | set(ids_b):
+        expected.add(f'<http://ex.org/person/{i}> <http://www.w3.org/1999/02/22-rdf-syntax-ns#type> <http://ex.org/Person>')
+        expected.add(f'<http://ex.org/person/{i}> <http://ex.org/team> <http://ex.org/team/t{int(i[1:]) % 2}>')
+    for mode in ('NO', 'PARTIAL-AGGREGATIONS'):
+        for n in procs:
+            rd = os.path.join(root, f'run_{mode}_{n}')
+            os.makedirs(rd, exist_ok=True)
+            out = os.path.join(rd, 'out.nt')
+            cfg = os.path.join(rd, 'c.ini')
+            with open(cfg, 'w') as f:
+                f.write(f'[CONFIGURATION]\nnumber_of_processes={n}\nlogging_level=CRITICAL\nmapping_partitioning={mode}\noutput_file={out}\n[DS]\nmappings={mp}\n')
+            p = subprocess.run([sys.executable, '-m', 'morph_kgc', cfg], env=child_env(), cwd=rd, capture_output=True, text=True, timeout=600)
+            inp = {'kind': 'shared-statements', 'nproc': n, 'mode': mode, 'seed': ctx.seed}
+            ctx.case(inp, nontrivial=True, kind=f'cli shared statements:{mode}:nproc={n}')
+            if p.returncode != 0 or not os.path.exists(out):
+                ctx.violation(f'CLI run failed with number_of_processes={n}, {mode}: {(p.stderr or "")[-300:]}', inp)
+                continue
+            with open(out, encoding='utf-8') as f:
+                lines = [l[:-2] for l in f.read().split('\n') if l]
+            if sorted(lines) != sorted(expected):
+                dup = sorted({l for l in lines if lines.count(l) > 1})
+                ctx.violation(f'number_of_processes={n}, {mode}: the file holds {len(lines)} lines for {len(expected)} statements '
+                              f'({len(dup)} written more than once, e.g. {dup[:1]}; missing {sorted(expected - set(lines))[:1]})', inp)
+
+
 def run(ctx, lean, findings):
     drv = ctx.get_driver() if ctx.model_available else None
     if not drv:
@@ -731,6 +777,7 @@ def run(ctx, lean, findings):
     expected = expected_from_lib(ctx, ds, [1, 2, 4])
 
     multi_section_case(ctx, [1, 2, 8])
+    shared_statements_case(ctx, [1, 2, 4, 8])
 
     # ---- (3) CLI: single process first (gives the number of groups), then the process counts ---------
     first = cli_batch(ctx, drv, ds, [{'nproc': 1, 'mode': None, 'variant': 'file', 'tag': 'p1'}], expected, chunk, buf, shape_info, None)
@@ -772,6 +819,11 @@ def replay(ctx, data):
         before = len(ctx.violations)
         ctx.seed = data['input'].get('seed', 0)
         multi_section_case(ctx, [data['input']['nproc']])
+        return len(ctx.violations) > before
+    if data.get('input', {}).get('kind') == 'shared-statements':
+        before = len(ctx.violations)
+        ctx.seed = data['input'].get('seed', 0)
+        shared_statements_case(ctx, [data['input']['nproc']])
         return len(ctx.violations) > before
     inp = data['input']
     chunk, buf = io_sizes(ctx.tmp)
